@@ -336,7 +336,9 @@ theorem c_special_list_heads (o' : Obj) (ho' : o' ∈ Dump.objs DN) : objClause 
         have hr : (NEW).rank = 0 := by
           show ((d.objs[p]?).map (·.miscarity)).getD 0 = 0
           rw [← obj?_nat, hq]; exact hz
-        have hps : (NEW).prevSib = -1 := hl
+        have hps : (NEW).prevSib = -1 := by
+          show shI pos (lastId d p) = -1
+          rw [hl]; exact shI_m1 pos
         simp only [hr, hps, Bool.and_eq_true, beq_iff_eq]
         refine ⟨⟨⟨?_, trivial⟩, ?_⟩, trivial⟩
         · show (p : Int) = ((shN pos o.id : Nat) : Int)
@@ -506,6 +508,212 @@ theorem last_some_of_pos (q : Obj) (hq : d.obj? (p : Int) = some q) (h0 : q.misc
       simp only [Bool.and_eq_true, beq_iff_eq]
       exact ⟨⟨by rw [h2, c3'.1.1.1, hqid], h3⟩, h4⟩
     · omega
+
+/-! ### special-list-links: the clause itself -/
+
+def arOf (t : Nat) (q : Obj) : Nat := if isMemory t then q.marity else if isIO t then q.ioarity else q.miscarity
+def firstOf (t : Nat) (q : Obj) : Int := if isMemory t then q.memFirst else if isIO t then q.ioFirst else q.miscFirst
+
+/-- the body of special-list-links below a known parent -/
+def sllBody (x : Dump) (o q : Obj) : Bool :=
+  if isNormal o.type then true else
+  decide (o.rank < arOf o.type q) && ((o.rank == 0) == (firstOf o.type q == (o.id : Int))) && ((o.rank == 0) == (o.prevSib == -1)) &&
+  (match x.obj? o.nextSib with
+    | none => o.nextSib == -1 && o.rank + 1 == arOf o.type q
+    | some nx => nx.parent == o.parent && sameKind nx.type o.type && nx.rank == o.rank + 1 && nx.prevSib == (o.id : Int)) &&
+  (match x.obj? o.prevSib with
+    | none => o.prevSib == -1
+    | some pv => pv.parent == o.parent && sameKind pv.type o.type && pv.rank + 1 == o.rank && pv.nextSib == (o.id : Int))
+
+theorem sll_eq (x : Dump) (a : Aux) (o q : Obj) (hq : x.obj? o.parent = some q) :
+    objClause "special-list-links" x a o = sllBody x o q := by
+  simp only [objClause, objClauses, List.find?, String.reduceBEq, hq]
+  rfl
+
+theorem sll_none (x : Dump) (a : Aux) (o : Obj) (hq : x.obj? o.parent = none) :
+    objClause "special-list-links" x a o = true := by
+  simp only [objClause, objClauses, List.find?, String.reduceBEq, hq]
+
+theorem arOf_upd (t : Nat) (q : Obj) : arOf t (U q) = arOf t q ∨
+    (arOf t (U q) = arOf t q + 1 ∧ isMemory t = false ∧ isIO t = false ∧ q.id = p) := by
+  unfold arOf
+  by_cases h1 : isMemory t = true
+  · simp only [h1, if_true]; exact Or.inl rfl
+  · by_cases h2 : isIO t = true
+    · simp only [h1, h2, if_true, if_false]; exact Or.inl rfl
+    · simp only [h1, h2, if_false]
+      by_cases h3 : q.id = p
+      · right
+        refine ⟨?_, by simpa using h1, by simpa using h2, h3⟩
+        show updMiscarity p q = q.miscarity + 1
+        unfold updMiscarity; simp [h3]
+      · left
+        show updMiscarity p q = q.miscarity
+        unfold updMiscarity; simp [h3]
+
+theorem firstOf_upd (t : Nat) (q : Obj) (hne : arOf t q ≠ 0) : firstOf t (U q) = shI pos (firstOf t q) := by
+  unfold firstOf
+  unfold arOf at hne
+  by_cases h1 : isMemory t = true
+  · simp only [h1, if_true]; rfl
+  · by_cases h2 : isIO t = true
+    · simp only [h1, h2, if_true, if_false]; rfl
+    · simp only [h1, h2, if_false] at hne ⊢
+      show updMiscFirst p pos q = _
+      unfold updMiscFirst
+      have : (q.miscarity == 0) = false := by rw [beq_eq_false_iff_ne]; exact hne
+      simp [this]
+
+theorem beq_sh (a : Int) (b : Nat) : (shI pos a == ((shN pos b : Nat) : Int)) = (a == (b : Int)) := by
+  rw [← shI_nat]
+  by_cases e : a = (b : Int)
+  · rw [e]; simp only [beq_self_eq_true]
+  · have e' : shI pos a ≠ shI pos (b : Int) := fun x => e (shI_inj pos _ _ x)
+    rw [beq_eq_false_iff_ne.2 e, beq_eq_false_iff_ne.2 e']
+
+theorem beq_sh_m1 (a : Int) : (shI pos a == -1) = (a == -1) := by
+  by_cases e : a = -1
+  · rw [e, shI_m1]
+  · have e' : shI pos a ≠ -1 := fun x => e ((shI_eq_m1 pos a).1 x)
+    rw [beq_eq_false_iff_ne.2 e, beq_eq_false_iff_ne.2 e']
+
+theorem misc_of_kinds : ∀ t, t < 20 → isNormal t = false → isMemory t = false → isIO t = false → t = tMISC := by decide
+
+theorem upd_type (o : Obj) : (U o).type = o.type := rfl
+theorem upd_rank (o : Obj) : (U o).rank = o.rank := rfl
+
+include h hp hpos in
+theorem c_special_list_links (o' : Obj) (ho' : o' ∈ Dump.objs DN) : objClause "special-list-links" DN (mkAux DN) o' = true := by
+  rcases (mem_after d p pos k name skip o').1 ho' with rfl | ⟨o, ho, rfl⟩
+  · -- the new object
+    obtain ⟨q, hq, hqid, hqm⟩ := parent_some h p pos hp hpos
+    have hq' : (DN).obj? (NEW).parent = some (U q) := by
+      show (DN).obj? (p : Int) = _
+      rw [obj?_p p pos k name skip hp hpos, hq]; rfl
+    rw [sll_eq _ _ _ _ hq']
+    have hrank : (NEW).rank = q.miscarity := by
+      show ((d.objs[p]?).map (·.miscarity)).getD 0 = _
+      rw [← obj?_nat, hq]; rfl
+    have har : arOf tMISC (U q) = q.miscarity + 1 := by
+      show updMiscarity p q = _
+      unfold updMiscarity; simp [hqid]
+    have hfirst : firstOf tMISC (U q) = updMiscFirst p pos q := rfl
+    unfold sllBody
+    have e0 : isNormal (NEW).type = false := misc_kinds.1
+    have et : (NEW).type = tMISC := rfl
+    have en : (NEW).nextSib = -1 := rfl
+    have ei : (NEW).id = pos := rfl
+    have ep : (NEW).prevSib = shI pos (lastId d p) := rfl
+    simp only [misc_kinds.1, Bool.false_eq_true, if_false, et, har, hfirst, hrank, en, obj?_m1, ei, ep, Bool.and_eq_true]
+    refine ⟨⟨⟨⟨decide_eq_true (by omega), ?_⟩, ?_⟩, ⟨rfl, by simp⟩⟩, ?_⟩
+    · unfold updMiscFirst
+      by_cases hz : q.miscarity = 0
+      · simp [hz, hqid]
+      · have : shI pos q.miscFirst ≠ (pos : Int) := shI_ne_pos pos _
+        rw [beq_eq_false_iff_ne.2 hz]
+        simp only [Bool.and_false, Bool.false_eq_true, if_false]
+        rw [beq_eq_false_iff_ne.2 this]; rfl
+    · rw [beq_sh_m1]
+      by_cases hz : q.miscarity = 0
+      · rw [last_none_of_zero h p pos hp hpos q hq hz]; simp [hz]
+      · have := last_some_of_pos h p pos hp hpos q hq hz
+        rw [beq_eq_false_iff_ne.2 hz, beq_eq_false_iff_ne.2 this]; rfl
+    · rcases lastId_cases d p with ⟨_, g2⟩ | ⟨L, g1, g2, g3, g4, g5, g6⟩
+      · rw [g2, shI_m1, obj?_m1]; rfl
+      · rw [g3, after_obj?_sh d p pos k name skip hpos, h.obj?_id g2]
+        show ((U L).parent == (p : Int) && sameKind (U L).type tMISC && (U L).rank + 1 == q.miscarity && (U L).nextSib == (pos : Int)) = true
+        have lr := last_rank h p L q g1 hq
+        rw [upd_parent, upd_type, upd_rank, upd_nextSib, g4, g5, if_pos (by rw [g3]; simp), shI_of_lt pos _ (by omega)]
+        simp [sameKind_misc, misc_kinds.2.2.2, lr]
+  · -- an old object
+    cases hq : d.obj? o.parent with
+    | none =>
+      apply sll_none
+      rw [upd_parent, after_obj?_sh d p pos k name skip hpos, hq]; rfl
+    | some q =>
+      have hold := h.objc "special-list-links" o ho
+      rw [sll_eq _ _ _ _ hq] at hold
+      have hq' : (DN).obj? (U o).parent = some (U q) := by
+        rw [upd_parent, after_obj?_sh d p pos k name skip hpos, hq]; rfl
+      rw [sll_eq _ _ _ _ hq']
+      unfold sllBody at hold ⊢
+      rw [upd_type]
+      by_cases hn : isNormal o.type = true
+      · simp only [hn, if_true]
+      · simp only [hn, Bool.false_eq_true, if_false, Bool.and_eq_true, decide_eq_true_eq] at hold ⊢
+        obtain ⟨⟨⟨⟨k1, k2⟩, k3⟩, k4⟩, k5⟩ := hold
+        have hne : arOf o.type q ≠ 0 := by omega
+        have hA := arOf_upd (d := d) p pos k o.type q
+        refine ⟨⟨⟨⟨?_, ?_⟩, ?_⟩, ?_⟩, ?_⟩
+        · rw [upd_rank]; rcases hA with e | ⟨e, _⟩ <;> omega
+        · rw [upd_rank, firstOf_upd (d := d) p pos k o.type q hne, upd_id, beq_sh]; exact k2
+        · rw [upd_rank, upd_prevSib, beq_sh_m1]; exact k3
+        · -- next sibling
+          rw [upd_nextSib]
+          by_cases hc : ((o.id : Int) == lastId d p) = true
+          · obtain ⟨g1, g4, g5, g6⟩ := lastId_obj h p o ho (by simpa using hc)
+            have hqp : d.obj? (p : Int) = some q := by rw [← g4]; exact hq
+            have lr := last_rank h p o q g1 hqp
+            rw [if_pos hc, after_obj?_pos d p pos k name skip hpos]
+            show ((p : Int) == (U o).parent && sameKind tMISC o.type && ((d.objs[p]?).map (·.miscarity)).getD 0 == (U o).rank + 1 &&
+              shI pos (lastId d p) == ((U o).id : Int)) = true
+            rw [upd_parent, g4, g5, upd_rank, upd_id, ← obj?_nat, hqp, shI_of_lt pos (p : Int) (by omega)]
+            have : lastId d p = (o.id : Int) := ((beq_iff_eq).1 hc).symm
+            rw [beq_sh]
+            simp [sameKind_misc, misc_kinds.2.2.2, lr, this]
+          · rw [if_neg hc, after_obj?_sh d p pos k name skip hpos]
+            cases hnx : d.obj? o.nextSib with
+            | none =>
+              rw [hnx] at k4
+              have k4' : (o.nextSib == -1 && o.rank + 1 == arOf o.type q) = true := k4
+              simp only [Bool.and_eq_true, beq_iff_eq] at k4'
+              show (shI pos o.nextSib == -1 && (U o).rank + 1 == arOf o.type (U q)) = true
+              rw [beq_sh_m1, upd_rank]
+              simp only [Bool.and_eq_true, beq_iff_eq]
+              refine ⟨k4'.1, ?_⟩
+              rcases hA with e | ⟨e, m1, m2, m3⟩
+              · omega
+              · exfalso
+                -- `o` would be a second Misc child of `p` without next sibling
+                have hT : o.type = tMISC := misc_of_kinds o.type (h.obj_type_in_range ho) (by simpa using hn) m1 m2
+                have hpar : o.parent = (p : Int) := by have := (WF.obj?_some h hq).1; omega
+                have hqp : d.obj? (p : Int) = some q := by rw [← hpar]; exact hq
+                rcases lastId_cases d p with ⟨g1, _⟩ | ⟨L, g1, g2, g3, g4, g5, g6⟩
+                · unfold lastMisc at g1
+                  apply List.find?_eq_none.1 g1 o ho
+                  simp only [Bool.and_eq_true, beq_iff_eq]
+                  exact ⟨⟨hpar, hT⟩, k4'.1⟩
+                · have lr := last_rank h p L q g1 hqp
+                  have : o = L := misc_rank_inj h o.rank o L ho g2 hT g5 (by rw [hpar, g4]) rfl (by
+                    unfold arOf at k4'; simp only [m1, m2, Bool.false_eq_true, if_false] at k4'; omega)
+                  subst this
+                  rw [g3] at hc; simp at hc
+            | some nx =>
+              rw [hnx] at k4
+              have k4' : (nx.parent == o.parent && sameKind nx.type o.type && nx.rank == o.rank + 1 && nx.prevSib == (o.id : Int)) = true := k4
+              simp only [Bool.and_eq_true, beq_iff_eq] at k4'
+              show ((U nx).parent == (U o).parent && sameKind nx.type o.type && nx.rank == o.rank + 1 && (U nx).prevSib == ((U o).id : Int)) = true
+              rw [upd_parent, upd_parent, upd_prevSib, upd_id, k4'.1.1.1, k4'.2, shI_nat]
+              simp [k4'.1.1.2, k4'.1.2]
+        · -- previous sibling
+          rw [upd_prevSib, after_obj?_sh d p pos k name skip hpos]
+          cases hpv : d.obj? o.prevSib with
+          | none =>
+            rw [hpv] at k5
+            have k5' : (o.prevSib == -1) = true := k5
+            show (shI pos o.prevSib == -1) = true
+            rw [beq_sh_m1]; exact k5'
+          | some pv =>
+            rw [hpv] at k5
+            have k5' : (pv.parent == o.parent && sameKind pv.type o.type && pv.rank + 1 == o.rank && pv.nextSib == (o.id : Int)) = true := k5
+            simp only [Bool.and_eq_true, beq_iff_eq] at k5'
+            show ((U pv).parent == (U o).parent && sameKind pv.type o.type && pv.rank + 1 == o.rank && (U pv).nextSib == ((U o).id : Int)) = true
+            have hnl : ¬ (((pv.id : Int) == lastId d p) = true) := by
+              intro hc
+              have := (lastId_obj h p pv (Dump.mem_of_obj? hpv) (by simpa using hc)).2.2.2
+              have := k5'.2; omega
+            rw [upd_parent, upd_parent, upd_nextSib, if_neg hnl, upd_id, k5'.1.1.1, k5'.2, shI_nat]
+            simp [k5'.1.1.2, k5'.1.2]
 
 end
 end Hw.Topo.MiscIns
